@@ -119,13 +119,20 @@ def shard(ctx):
             rng.shuffle(texts)
             dtexts = [docs] + [json.dumps(gen.gen_doc(rng)) for _ in range(rng.randint(0, 2))]
             rng.shuffle(dtexts)
-            check_multi(ctx, texts, dtexts)
+            check_multi(ctx, texts, dtexts, zp=rng.choice([1, "x", True]) if rng.random() < 0.5 else None)
 
 
-def check_multi(ctx, texts, dtexts):
-    case = {"kind": "multi", "rules": texts, "data": dtexts}
+def check_multi(ctx, texts, dtexts, zp=None):
+    case = {"kind": "multi", "rules": texts, "data": dtexts, "zp": zp}
     fl = {}
     R, D = [], []
+    IT = []
+    if zp is not None:
+        # an --input-parameters document and one rule that only PASSes when the parameters reach the data file it is evaluated on
+        fl["params/p.json"] = json.dumps({"zp": zp})
+        IT = ["-i", "{S}/params/p.json"]
+        texts = [texts[0] + "rule zp_rule {\n    zp == %s\n}\n" % gen.glit(zp)] + list(texts[1:])
+        ctx.res.counts["multi_groups_with_input_parameters"] += 1
     for i, tx in enumerate(texts):
         fl["r%d.guard" % i] = tx
         R += ["-r", "{S}/r%d.guard" % i]
@@ -136,7 +143,7 @@ def check_multi(ctx, texts, dtexts):
 
     def run(argv, stdin=""):
         return ctx.w.run({"k": "cli", "argv": argv, "files": fl, "stdin": stdin})
-    base = run(["validate"] + R + D + ["--structured", "-S", "none", "-o", "json"])
+    base = run(["validate"] + R + D + IT + ["--structured", "-S", "none", "-o", "json"])
     if base.get("r") != "ok":
         ctx.inconclusive("crash" if core.crash_signature(base) else "baseline-error")
         return
@@ -155,19 +162,19 @@ def check_multi(ctx, texts, dtexts):
     # the pairs that FAIL, by position: a FAIL that is not the last pair evaluated must still decide the exit code
     ctx.res.distinct.add(("multi", len(texts), len(dtexts), tuple(statuses)))
     configs = {
-        "multi:s-yaml": (["validate"] + R + D + ["--structured", "-S", "none", "-o", "yaml"], ""),
-        "multi:s-junit": (["validate"] + R + D + ["--structured", "-S", "none", "-o", "junit"], ""),
-        "multi:s-sarif": (["validate"] + R + D + ["--structured", "-S", "none", "-o", "sarif"], ""),
-        "multi:plain": (["validate"] + R + D + ["-S", "all"], ""),
-        "multi:plain-none": (["validate"] + R + D + ["-S", "none"], ""),
-        "multi:plain-json": (["validate"] + R + D + ["-S", "fail", "-o", "json"], ""),
-        "multi:plain-yaml-verbose": (["validate"] + R + D + ["-o", "yaml", "-v"], ""),
-        "multi:plain-print-json": (["validate"] + R + D + ["-S", "none", "-p"], ""),
-        "multi:payload-plain": (["validate", "--payload", "-S", "all"], payload),
-        "multi:payload-plain-none": (["validate", "--payload", "-S", "none"], payload),
-        "multi:payload-plain-json": (["validate", "--payload", "-o", "json"], payload),
-        "multi:payload-structured": (["validate", "--payload", "--structured", "-S", "none", "-o", "json"], payload),
-        "multi:payload-structured-junit": (["validate", "--payload", "--structured", "-S", "none", "-o", "junit"], payload),
+        "multi:s-yaml": (["validate"] + R + D + IT + ["--structured", "-S", "none", "-o", "yaml"], ""),
+        "multi:s-junit": (["validate"] + R + D + IT + ["--structured", "-S", "none", "-o", "junit"], ""),
+        "multi:s-sarif": (["validate"] + R + D + IT + ["--structured", "-S", "none", "-o", "sarif"], ""),
+        "multi:plain": (["validate"] + R + D + IT + ["-S", "all"], ""),
+        "multi:plain-none": (["validate"] + R + D + IT + ["-S", "none"], ""),
+        "multi:plain-json": (["validate"] + R + D + IT + ["-S", "fail", "-o", "json"], ""),
+        "multi:plain-yaml-verbose": (["validate"] + R + D + IT + ["-o", "yaml", "-v"], ""),
+        "multi:plain-print-json": (["validate"] + R + D + IT + ["-S", "none", "-p"], ""),
+        "multi:payload-plain": (["validate", "--payload"] + IT + ["-S", "all"], payload),
+        "multi:payload-plain-none": (["validate", "--payload"] + IT + ["-S", "none"], payload),
+        "multi:payload-plain-json": (["validate", "--payload"] + IT + ["-o", "json"], payload),
+        "multi:payload-structured": (["validate", "--payload"] + IT + ["--structured", "-S", "none", "-o", "json"], payload),
+        "multi:payload-structured-junit": (["validate", "--payload"] + IT + ["--structured", "-S", "none", "-o", "junit"], payload),
     }
     for cfg, (argv, stdin) in configs.items():
         r = run(argv, stdin)
@@ -192,6 +199,28 @@ def check_multi(ctx, texts, dtexts):
             b = sorted(json.dumps(obs_from_report(x), sort_keys=True) for x in preps)
             if a != b:
                 ctx.violation("%s:reports" % cfg, "per-data-file verdicts differ between files and payload entry points", dict(case, cfg=cfg))
+        if zp is not None and cfg in ("multi:plain", "multi:payload-plain"):
+            # the parameter-reading rule, per data file: console view vs structured baseline
+            cur, seen = None, {}
+            for line in r["out"].split("\n"):
+                m = re.match(r"^(.*) Status = (PASS|FAIL|SKIP)\s*$", line)
+                if m:
+                    cur = m.group(1).strip()
+                    continue
+                m = SUMMARY_LINE.match(line)
+                if m and m.group(1).endswith("/zp_rule") and cur is not None:
+                    seen.setdefault(cur.rsplit("/", 1)[-1], m.group(2))
+            want = {}
+            for rep in reps:
+                stz = obs.report_statuses(rep).get("zp_rule")
+                if stz:
+                    want[str(rep.get("name", "")).rsplit("/", 1)[-1]] = stz[0]
+            common = set(seen) & set(want)
+            ctx.res.counts["parameter_rule_pairs_compared"] += len(common)
+            bad = sorted(k for k in common if seen[k] != want[k])
+            if bad:
+                ctx.violation("%s:parameter-rule" % cfg, "rule reading the --input-parameters key is %s on the console but %s in the structured report for %s" % (seen[bad[0]], want[bad[0]], bad[0]), dict(case, cfg=cfg))
+                continue
         if cfg in ("multi:plain", "multi:payload-plain"):
             # one summary block per (data file, rules file): the multiset of block statuses is implied by the per-rule statuses of the baseline
             blocks = re.findall(r"^.* Status = (PASS|FAIL|SKIP)\s*$", r["out"], re.M)
@@ -429,7 +458,7 @@ def replay(case, w):
             found.append(sig)
     c = Ctx(w, 0, 1, 1, "thorough", res, {"prop": "C07"})
     if case.get("kind") == "multi":
-        check_multi(c, case["rules"], case["data"])
+        check_multi(c, case["rules"], case["data"], zp=case.get("zp"))
         return not found, "violations: %s" % sorted(set(found))
     check_pair(c, case["rules"], case["data"], random.Random(1))
     return not found, "violations: %s" % sorted(set(found))
